@@ -23,6 +23,8 @@ type c17Set struct {
 	Injected []string // header names the configuration injects (C07's business: excluded from the comparison)
 	Light    bool     // reduced workload (order-permutation sets)
 	Tiny     bool     // only the bases and the slow-exchange cases (short upstream timeout)
+	Refresh  bool     // --cookie-refresh=1s: every case logs in on its own, waits past the period and is the refreshing request
+	Prefix   string   // --proxy-prefix ("" = default /oauth2)
 	Timeout  string   // upstream timeout ("" = default 30s): legacy --upstream-timeout, alpha per-upstream timeout
 	ExtraYML string
 
@@ -150,6 +152,20 @@ func c17Sets(w *vfWorld) []*c17Set {
 				ph(c17HTTP("c-exact", "/c", "u1"), true), ph(c17RW("rw", "^/rw/(.*)$", "/t/$1", "u1"), false), ph(c17RW("rwlong", "^/rw/long/(.*)$", "/long/$1", "u1"), true), ph(c17HTTP("other", "/o/", "u2"), false)},
 			Bases: []string{"/", "/a/", "/a/b/", "/c/", "/c", "/rw/", "/rw/long/", "/o/", "/a%2Fb/"}})
 	}
+	// siblings of the proxy prefix: paths that merely START with its characters belong to the upstreams
+	for _, pp := range []string{"", "/auth"} {
+		x := "/oauth2"
+		name := "legacy-prefix-siblings"
+		if pp != "" {
+			x, name = pp, "legacy-prefix-siblings-custom"
+		}
+		sets = append(sets, &c17Set{Name: name, Legacy: true, PassHost: true, Light: true, Prefix: pp,
+			Ups:   []*c17Up{c17HTTP("root", "/", "u0"), c17HTTP("admin", x+"-admin/", "u1"), c17HTTP("json-exact", x+".json", "u2"), c17HTTP("dot-dir", x+".d/", "u3")},
+			Bases: []string{x + "-admin/", x + "-admin", x + ".json", x + "x", x + "x/", x + "_/", x + "callback", x + "%2Fx", x + "~/", x + ".d/", x + "-", x + "%2D/", x[:len(x)-1] + "/", "/"}})
+	}
+	// session refresh on the judged request (documented addition: the proxy's own session cookie; nothing else)
+	sets = append(sets, &c17Set{Name: "legacy-cookie-refresh-1s", Legacy: true, PassHost: true, Tiny: true, Refresh: true,
+		Ups: []*c17Up{c17HTTP("root", "/", "u14"), c17HTTP("a", "/a/", "u15")}, Bases: []string{"/", "/a/"}})
 	// short upstream timeout (1s): exchanges that START in time but last longer must still be relayed completely
 	sets = append(sets,
 		&c17Set{Name: "legacy-timeout-1s", Legacy: true, PassHost: true, Tiny: true, Timeout: "1s",
@@ -187,6 +203,12 @@ func (s *c17Set) build(w *vfWorld) error {
 		flags := []string{fmt.Sprintf("--pass-host-header=%v", s.PassHost)}
 		if s.Timeout != "" {
 			flags = append(flags, "--upstream-timeout="+s.Timeout)
+		}
+		if s.Prefix != "" {
+			flags = append(flags, "--proxy-prefix="+s.Prefix)
+		}
+		if s.Refresh {
+			flags = append(flags, "--cookie-refresh=1s", "--cookie-expire=1h")
 		}
 		for _, u := range s.Ups {
 			switch u.Kind {
